@@ -15,6 +15,11 @@ func checkC01(p *Prog, c *Check) {
 	c.Trusted("shlib/shcrypto (VerifyEpochSecretKeyShare, ComputeEpochSecretKey)", "pgx", "go/ssa")
 	c.Assume("rows of decryption_key_share were validated before insertion (C04-R-store)")
 
+	// shares reach the aggregator only through the topic validators: every validator registered for a
+	// topic stays registered and is consulted (shared with C04)
+	if accept, err := p.validationConst("ValidationAccept"); c.Must(err) {
+		c04Gossip(p, c, accept)
+	}
 	ekg, err := p.Named("keyper/epochkg.EpochKG")
 	if !c.Must(err) {
 		return
